@@ -1,6 +1,6 @@
 // extract-C09: the RunIdFacts record (which id and which done channel every frame-making site takes — through
-// newFrame or newCallFrame —, the runCfg guards, stop (bump, close, renew), the two root-id refreshes of Execute and
-// the one of importSrc, where cancelChan is set, the ctx.Done() arm of the watchers, the blocking channel generators,
+// newFrame or newCallFrame (its reads of id, done and epoch under one lock) —, the runCfg guards, stop (epochs marked,
+// bump, close, renew), begin / end and the epoch plumbing, the root-id refresh of Execute and of importSrc (through begin), where cancelChan is set, the ctx.Done() arm of the watchers, the blocking channel generators,
 // the store-after-check shape of recv, the epilogue of getFunc's wrapper) and the fingerprints of the small
 // functions Model/RunId.lean transcribes.
 package main
